@@ -1349,7 +1349,7 @@ func TestVerifC21(t *testing.T) {
 		"injected fault / stall was actually hit by a file operation; distinct key = step list + segment/dup-tail/dedup counts")
 	r.Assume("crash model = vfs.MemFS.CrashClone (synced prefix of every file and synced directory entries survive; unsynced 4KiB blocks / entries survive independently)")
 	r.Assume("schedules are produced by the Go scheduler plus injected stalls/delays; they are explored, not enumerated")
-	n := vcommon.Scale(270, 8000)
+	n := vcommon.Scale(240, 8000)
 	// Many short-lived large objects (log blocks, reader buffers, queue
 	// buffers): a lazier GC saves a lot of race-detector bookkeeping.
 	defer debug.SetGCPercent(debug.SetGCPercent(600))
